@@ -443,6 +443,18 @@ theorem impulse0_stateDeriv (st : K) (f : ExpPoly K) (h : NoDelta f) :
   simp only [impulse0, stateDeriv, coefOf_append, this, coefOf, sameKey, Term.coef]
   simp; ring
 
+theorem impulse0_mutualDropT (x : Ix → Signal K) (coup : List (Nat × K × Option K))
+    (h : ∀ p ∈ coup, NoDelta (x (.br p.1)).post) :
+    impulse0 (mutualDropT x coup) =
+      lsum (coup.map (fun p => p.2.1 * (val0plus (x (.br p.1)).post - stateOf p.2.2 (pre0 (x (.br p.1)).pre)))) := by
+  induction coup with
+  | nil => simp [mutualDropT, impulse0, coefOf, lsum]
+  | cons p coup ih =>
+    have ih' := ih (fun q hq => h q (by simp [hq]))
+    have hp := impulse0_stateDeriv (stateOf p.2.2 (pre0 (x (.br p.1)).pre)) (x (.br p.1)).post (h p (by simp))
+    simp only [impulse0, mutualDropT, List.flatMap_cons, coefOf_append, coefOf_smul, List.map_cons, lsum] at ih' hp ⊢
+    rw [ih', hp]
+
 end impulse
 
 end Lcapy.TD
